@@ -39,12 +39,14 @@ ASSUMPTIONS = [
     "memory independence is demanded for public array attributes (values, mu, lmbda, named other fields); the "
     "private basis matrices in FourthOrderTensor._other_matrices are shared by copy() and not checked",
     "other_fields basis matrices are symmetric 9x9 (admissible parameters)",
+    "magnitude axis: every tensor family is also scaled by 1e-20, 1e-17, 1e-15, 1e-9, 1e9, 1e15; all tolerances are "
+    "relative to max|K| of the tensor itself (no absolute thresholds)",
 ]
 BOUNDS = {
     "quick": "2nd order: the one-cell lattice (3..729 distinct tensors per signature) x 5 signatures x 12 rotations; 6^2 two-cell tensors; "
-             "4th order: 9 Lame pairs, 1-2 cells, 3 field configurations",
+             "4th order: 9 Lame pairs, 1-2 cells, 3 field configurations; full-signature, two-cell and 4th-order families x 7 magnitudes",
     "thorough": "2nd order: the one-cell lattice x 5 signatures x 31 rotations; 6^2+6^3 multi-cell tensors; "
-                "4th order: 9 Lame pairs, 1-3 cells, 3 field configurations",
+                "4th order: 9 Lame pairs, 1-3 cells, 3 field configurations; x 7 magnitudes (3 for the three-cell families)",
 }
 MIN_CLASSES = 8
 CHUNK = 2
@@ -90,18 +92,29 @@ def rotations(tier):
     return rots + gen
 
 
+MAGS = (1e-20, 1e-17, 1e-15, 1e-9, 1e9, 1e15)  # besides 1: every comparison is relative to the tensor's scale
+
+
 def cases(tier):
     out = []
     for sig in SIGS:
         for blk in range(3):  # kxx value selects the block
-            out.append({"kind": "so1", "sig": sig, "kxx": blk})
-    out.append({"kind": "so_multi", "nc": 2})
+            out.append({"kind": "so1", "sig": sig, "kxx": blk, "mag": 1.0})
+    for mag in MAGS:
+        for blk in range(3):
+            out.append({"kind": "so1", "sig": "full", "kxx": blk, "mag": mag})
+        if tier == "thorough":
+            out.append({"kind": "so1", "sig": "xx-yy-xy", "kxx": 1, "mag": mag})
+    for mag in (1.0,) + MAGS:
+        out.append({"kind": "so_multi", "nc": 2, "mag": mag})
     if tier == "thorough":
         for first in range(len(REPR)):
-            out.append({"kind": "so_multi", "nc": 3, "first": first})
+            for mag in (1.0, 1e-15, 1e15):
+                out.append({"kind": "so_multi", "nc": 3, "first": first, "mag": mag})
     for nc in (1, 2) if tier == "quick" else (1, 2, 3):
         for fields in (0, 1, 2):
-            out.append({"kind": "fo", "nc": nc, "fields": fields})
+            for mag in ((1.0,) + MAGS if nc < 3 else (1.0, 1e-15, 1e15)):
+                out.append({"kind": "fo", "nc": nc, "fields": fields, "mag": mag})
     for c in out:
         c["tier"] = tier
     return out
@@ -139,7 +152,7 @@ def _check_second_order(out, comp, sig, rots, tag):
         yz = arr["kyz"][c] if "kyz" in given else 0.0
         eff.append((xx, yy, zz, xy, xz, yz))
     Kref = _dense(eff)
-    pd = bool(np.all(np.linalg.eigvalsh(Kref) > 1e-9))
+    pd = bool(np.all(np.linalg.eigvalsh(Kref) > 1e-9 * np.abs(Kref).max()))
     desc = {"signature": sig, "components": {k: arr[k].tolist() for k in given}}
     args = {k: arr[k].copy() for k in given}
     try:
@@ -178,7 +191,7 @@ def _check_second_order(out, comp, sig, rots, tag):
         out.ev("VIOLATION")
         return
     K0 = V.transpose((2, 0, 1)).copy()  # (nc, 3, 3) as built
-    iso = all(np.allclose(K0[c], K0[c][0, 0] * np.eye(3)) for c in range(nc))
+    iso = all(np.array_equal(K0[c], K0[c][0, 0] * np.eye(3)) for c in range(nc))
     out.ev(f"{tag}/built/{'iso' if iso else 'aniso'}")
     scale = float(np.abs(K0).max())
     ev0 = np.linalg.eigvalsh(K0)
@@ -275,7 +288,8 @@ def _check_restrict_copy(out, T, ref, fields, nc, tag, desc, keybase):
         # mutate the copy, then the original; the other side must not move
         snap = {k: v.copy() for k, v in a.items()}
         for k in b:
-            b[k] += 1.0
+            b[k] *= 1.5
+            b[k] += np.abs(b[k]).max() if b[k].size and np.abs(b[k]).max() > 0 else 1.0
         if any(not np.array_equal(a[k], snap[k]) for k in a):
             bad = "mutating the copy changed the original"
         else:
@@ -360,15 +374,15 @@ def _field_mats():
     return m1, m2
 
 
-def _check_fourth_order(out, pairs, nfields, tag):
+def _check_fourth_order(out, pairs, nfields, tag, mag=1.0):
     import porepy as pp
 
     nc = len(pairs)
-    mu = np.array([p[0] for p in pairs])
-    lm = np.array([p[1] for p in pairs])
+    mu = np.array([p[0] for p in pairs]) * mag
+    lm = np.array([p[1] for p in pairs]) * mag
     m1, m2 = _field_mats()
-    f1 = np.array([0.25 * (c + 1) for c in range(nc)])
-    f2 = np.array([3.0 - c for c in range(nc)])
+    f1 = np.array([0.25 * (c + 1) for c in range(nc)]) * mag
+    f2 = np.array([3.0 - c for c in range(nc)]) * mag
     other = {}
     if nfields >= 1:
         other["phi"] = (m1.copy(), f1.copy())
@@ -396,7 +410,7 @@ def _check_fourth_order(out, pairs, nfields, tag):
         V4 = V.reshape((3, 3, 3, 3, nc))
         if not (np.array_equal(V4, V4.transpose((1, 0, 2, 3, 4))) and np.array_equal(V4, V4.transpose((0, 1, 3, 2, 4)))):
             bad = "FourthOrderTensor lacks the minor symmetries"
-        elif np.abs(V - exp).max() > 1e-14 * max(1.0, np.abs(exp).max()):
+        elif np.abs(V - exp).max() > 1e-14 * np.abs(exp).max():
             bad = "FourthOrderTensor differs from the isotropic stiffness formula"
     fields = ["mu", "lmbda"] + sorted(other)
     if not bad:
@@ -415,7 +429,7 @@ def _check_fourth_order(out, pairs, nfields, tag):
         ref["phi"] = f1.copy()
     if nfields >= 2:
         ref["chi"] = f2.copy()
-    _check_restrict_copy(out, T, ref, fields, nc, tag, desc, (tag, tuple(pairs), nfields))
+    _check_restrict_copy(out, T, ref, fields, nc, tag, desc, (tag, tuple(pairs), nfields, mag))
 
 
 # ----------------------------------------------------------------------------- driver
@@ -424,6 +438,8 @@ def _check_fourth_order(out, pairs, nfields, tag):
 def run_case(case) -> Outcome:
     out = Outcome()
     kind = case["kind"]
+    mag = case.get("mag", 1.0)
+    mtag = "" if mag == 1.0 else f"@{mag:g}"
     if kind == "so1":
         rots = rotations(case["tier"])
         used = {"xx": (), "xx-yy": (1,), "xx-yy-zz": (1, 2), "xx-yy-xy": (1, 3), "full": (1, 2, 3, 4, 5)}[case["sig"]]
@@ -435,7 +451,7 @@ def run_case(case) -> Outcome:
                 if sig_key in seen:
                     continue
                 seen.add(sig_key)
-                _check_second_order(out, [comp], case["sig"], rots, "so1")
+                _check_second_order(out, [tuple(mag * v for v in comp)], case["sig"], rots, "so1" + mtag)
     elif kind == "so_multi":
         rots = rotations(case["tier"])
         nc = case["nc"]
@@ -443,11 +459,12 @@ def run_case(case) -> Outcome:
         for f in firsts:
             for rest in itertools.product(range(len(REPR)), repeat=nc - 1):
                 comp = [REPR[f]] + [REPR[r] for r in rest]
-                _check_second_order(out, comp, "full", rots, f"so{nc}")
+                comp = [tuple(mag * v for v in c) for c in comp]
+                _check_second_order(out, comp, "full", rots, f"so{nc}" + mtag)
     else:
         nc = case["nc"]
         for pairs in itertools.product(LAME, repeat=nc):
-            _check_fourth_order(out, list(pairs), case["fields"], f"fo{nc}")
+            _check_fourth_order(out, list(pairs), case["fields"], f"fo{nc}" + mtag, mag)
     if not out.samples:
         out.samples.append({"case": {k: v for k, v in case.items()}, "classes": dict(out.classes)})
     return out
